@@ -49,9 +49,19 @@ def check(prog, run):
         return
     ifn = tests[0]
     test = ifn.test
+    if not isinstance(test, ast.BoolOp):
+        # the conjunction may sit in a helper predicate: decide on the inlined test
+        x = astq.expr_at(fi, ifn, test)
+        while isinstance(x, ast.Call) and isinstance(x.func, ast.Name) and x.func.id == "bool" and len(x.args) == 1:
+            x = x.args[0]
+        if isinstance(x, ast.BoolOp):
+            test = x
     conj = isinstance(test, ast.BoolOp) and isinstance(test.op, ast.And)
     parts = test.values if isinstance(test, ast.BoolOp) else [test]
-    ob("R-neighbour", "three tests joined by `and`", conj and len(parts) == 3, f"`{astq.src(test, 80)}`", astq.src(test, 80), ifn)
+    okconj = conj and len(parts) == 3
+    if not okconj and not isinstance(test, (ast.BoolOp, ast.Compare)):
+        okconj = None        # not a boolean combination of comparisons at all: form not recognised
+    ob("R-neighbour", "three tests joined by `and`", okconj, f"`{astq.src(test, 80)}`", astq.src(test, 80), ifn)
     idx_exprs = {}
     curcols = {}
     for part in parts:
